@@ -129,7 +129,8 @@ def standard_cases(rng, count, maxdeg=20, classes=None):
         return from_roots_case("mult%d" % i, "multiple-roots", rs, rng)
     add(multiple)
     def zeroroots(i):
-        c = rand_int_poly(rng, rng.randint(1, 8), 6)
+        # real and (every other time) genuinely complex coefficients: deflation must shift both parts
+        c = rand_int_poly(rng, rng.randint(1, 8), 6, complex_=(rng.random() < 0.5))
         k = rng.randint(1, 4)
         return mono_case("zero%d" % i, "zero-roots", [(Fr(0), Fr(0))] * k + c, rng, sparse=rng.random() < 0.5)
     add(zeroroots)
